@@ -835,6 +835,47 @@ def keyed_values(fn, key):
     return out
 
 
+def facts_at(node, fn, resolve_locals=False):
+    """{(condition text, truth)} known to hold where `node` stands: the enclosing tests, with `A and B` taken true split into
+    A and B, `A or B` taken false split into not A, not B, and negations folded (`x is not y` true == `x is y` false)"""
+    out = set()
+
+    def add(t, v):
+        t, v = _fold_not(t, v)
+        if isinstance(t, ast.BoolOp) and ((isinstance(t.op, ast.And) and v) or (isinstance(t.op, ast.Or) and not v)):
+            for x in t.values:
+                add(x, v)
+            return
+        out.add((src(t), v))
+    child = node
+    for a in ancestors(node):
+        if isinstance(a, (ast.If, ast.IfExp)):
+            test = resolve_deep(fn, a.test, 2) if resolve_locals else a.test
+            body = a.body if isinstance(a, ast.If) else [a.body]
+            orelse = a.orelse if isinstance(a, ast.If) else [a.orelse]
+            if any(contains(b, child) or b is child for b in body):
+                add(test, True)
+            elif any(contains(b, child) or b is child for b in orelse):
+                add(test, False)
+        child = a
+        if a is fn or isinstance(a, (ast.FunctionDef, ast.Lambda)):
+            break
+    # guard clauses in front of the node in its own and the enclosing statement lists: `if c: <leave>` makes c false afterwards
+    child = node
+    for a in [node] + list(ancestors(node)):
+        par = getattr(a, "_parent", None)
+        for f in ("body", "orelse", "finalbody"):
+            lst = getattr(par, f, None)
+            if isinstance(lst, list) and any(s is a for s in lst):
+                i = [k for k, s in enumerate(lst) if s is a][0]
+                for s in lst[:i]:
+                    if isinstance(s, ast.If) and not s.orelse and s.body and isinstance(s.body[-1], (ast.Return, ast.Raise, ast.Continue, ast.Break)):
+                        add(resolve_deep(fn, s.test, 2) if resolve_locals else s.test, False)
+        if par is fn or isinstance(par, (ast.FunctionDef, ast.Lambda)):
+            break
+    return out
+
+
 def guard_implies(guards, text):
     """the guards (from guards_of) make the condition `text` true: it is a guard taken true, or a conjunct of one"""
     for t, v in guards:
